@@ -911,6 +911,7 @@ Definition sb_nodouble_local (l : list (oev nat)) : bool :=
     operation, it is now the top.  So a call can resize or free memory that was
     allocated outside the timed section. *)
 Inductive tok := TA (n : N) | TD | TG (n : N) | TS (n : N) | TK | TT
+               | TR            (* [GlobalAlloc::realloc] of the top buffer to its own size: one grow of 0 bytes *)
                | TZ (n : N).   (* allocate [n] zero-initialised bytes: [GlobalAlloc::alloc_zeroed], tallied as an allocation *)
 
 Fixpoint interp (l : list tok) (stack : list N) (kept : list N) : list aop :=
@@ -920,6 +921,7 @@ Fixpoint interp (l : list tok) (stack : list N) (kept : list N) : list aop :=
   | TD :: r => match stack with s :: st => Dealloc s :: interp r st kept | [] => interp r [] kept end
   | TG n :: r | TS n :: r =>
       match stack with s :: st => Realloc s n :: interp r (n :: st) kept | [] => interp r [] kept end
+  | TR :: r => match stack with s :: st => Realloc s s :: interp r (s :: st) kept | [] => interp r [] kept end
   | TK :: r => match stack with _ :: st => interp r st kept | [] => interp r [] kept end
   | TT :: r => match kept with s :: ks => interp r (s :: stack) ks | [] => interp r stack [] end
   end.
@@ -932,7 +934,7 @@ Fixpoint kept_of (l : list tok) (stack : list N) : list N :=
   | TD :: r => match stack with _ :: st => kept_of r st | [] => kept_of r [] end
   | TG n :: r | TS n :: r => match stack with _ :: st => kept_of r (n :: st) | [] => kept_of r [] end
   | TK :: r => match stack with s :: st => s :: kept_of r st | [] => kept_of r [] end
-  | TT :: r => kept_of r stack
+  | TT :: r | TR :: r => kept_of r stack
   end.
 
 Record scripts := mkScr {
